@@ -10,12 +10,18 @@ value changing type.  Proved here
   any other required member (`paths`, `responses`, …) breaks this obligation;
 * on the model, for all inputs: a field that is not `omitempty` is always emitted (`non_omitempty_always_emitted`),
   an `omitempty` field is emitted whenever its decoded value is not empty (`nonempty_emitted`).
+* for whole values of every regular kind and every input (`required_member_survives`, Codec/Required.lean): the part
+  and field a required member is encoded from are found in the regenerated tables (`required_members_located`,
+  `decide`); a member whose field is not `omitempty` is present in every encoding; when the last input member that
+  goes to the field is not `null`, the encoding carries its decoded value under the field's name unless `omitempty`
+  drops it as empty; a required non-empty string comes out as it went in (`required_string_survives`).
 Validity itself (draft-4 semantics, `oneOf` over parameter and security-scheme flavours) is decided per run by
 an independent validator (python `jsonschema`, Draft4Validator over the meta-schema shipped in /repo) on every
 generated valid document before and after round trip and expansion; that part is exploration, not proof.
 -/
 import SpecModel.Codec.Struct
 import SpecModel.Codec.SideConditions
+import SpecModel.Codec.Required
 
 namespace SpecModel.Props.C19
 open SpecModel SpecModel.Codec
@@ -45,5 +51,62 @@ theorem empty_required_string_dropped (f : Field) (h : f.omitEmpty = true) (hs :
 
 example : ∃ f ∈ lookupStruct Gen.structs "InfoProps", f.jsonName = "title" ∧ f.omitEmpty = true ∧ f.ft = .str := by
   decide
+
+/-! ### whole values: required members survive decode+encode -/
+
+/-- every member the meta-schema requires of a regular kind is located (part, field) in the regenerated tables -/
+theorem required_members_located :
+    (Gen.vocabRequired.all fun kn => isSpecialKind kn.1 || kn.2.all fun n => (memberField kn.1 n).isSome) = true := by
+  decide
+
+/-- `norm` runs the codec of the kind with the codec of the nested kinds one level of budget down -/
+theorem norm_unfold (k : String) (j : Json) : norm k j = normKind (normF (3 * depth j + 3)) k j := rfl
+
+/-- **Required members survive** (regular kinds, every input object): with `(P, f)` the part and field the member
+`n` of kind `k` is encoded from, the output of decode+encode is an object in which
+* `n` is present whenever `f` is not `omitempty`;
+* if the last input member that goes to `f` (exact name, else Go's case folding) has the non-null value `v`, then `v`
+  decodes and encodes to some `r`, and `(n, r)` is in the output unless `omitempty` drops `r` as empty. -/
+theorem required_member_survives {k n P : String} {f : Field} (hm : memberField k n = some (P, f))
+    {ms : List (String × Json)} {j' : Json} (h : norm k (.obj ms) = .ok j') :
+    ∃ out, j' = .obj out ∧
+      (f.omitEmpty = false → ∃ r, (n, r) ∈ out) ∧
+      (∀ vs v, fieldVals (tableOf P) n ms = vs ++ [v] → v ≠ .null →
+        ∃ r, normFT (normF (3 * depth (.obj ms) + 3)) f.ft v = .ok r ∧ (isEmptyEnc f.ft r = false → (n, r) ∈ out)) := by
+  rw [norm_unfold] at h
+  obtain ⟨out, rfl, st, hst, hmem⟩ := normKind_member hm h
+  have hn : f.jsonName = n := (memberField_sound hm).2.choose_spec.2.2.2
+  refine ⟨out, rfl, ?_, ?_⟩
+  · intro ho
+    obtain ⟨v, hv⟩ := non_omitempty_always_emitted f st ho
+    exact ⟨v, by rw [← hn]; exact hmem _ hv⟩
+  · intro vs v hvals hv
+    obtain ⟨r, hr, rfl⟩ := fieldState_last (by rw [hn]; exact hvals) hv hst
+    refine ⟨r, hr, ?_⟩
+    intro he
+    rw [← hn]
+    exact hmem _ (nonempty_emitted f r he)
+
+/-- a required string that is not empty comes out as it went in -/
+theorem required_string_survives {k n P : String} {f : Field} (hm : memberField k n = some (P, f)) (hstr : f.ft = .str)
+    {ms : List (String × Json)} {j' : Json} (h : norm k (.obj ms) = .ok j') {vs : List Json} {s : String}
+    (hv : fieldVals (tableOf P) n ms = vs ++ [.str s]) (hs : s ≠ "") :
+    ∃ out, j' = .obj out ∧ (n, .str s) ∈ out := by
+  obtain ⟨out, ho, _, h2⟩ := required_member_survives hm h
+  obtain ⟨r, hr, hmem⟩ := h2 vs (.str s) hv (by intro hc; cases hc)
+  rw [hstr] at hr hmem
+  simp only [normFT, pure, Except.pure, Except.ok.injEq] at hr
+  subst hr
+  exact ⟨out, ho, hmem (by simp [isEmptyEnc, hs])⟩
+
+/-- the theorem applies: `title` of `info` is a string field of the part `InfoProps`, and the last of three spellings
+of the member decides -/
+example : (memberField "info" "title").map (fun pf => (pf.1, pf.2.ft, pf.2.omitEmpty)) = some ("InfoProps", .str, true) := by
+  decide
+example : fieldVals (tableOf "InfoProps") "title" [("title", .str "t"), ("version", .str "1"), ("TITLE", .str "u")] =
+    [.str "t"] ++ [.str "u"] := by rfl
+example : (memberField "swagger" "paths").map (fun pf => (pf.1, pf.2.omitEmpty)) = some ("SwaggerProps", false) := by
+  decide
+example : (memberField "operation" "responses").map (fun pf => pf.1) = some "OperationProps" := by decide
 
 end SpecModel.Props.C19
